@@ -57,6 +57,23 @@ def _as_expr(paths):
     return e
 
 
+def _is_table(e):
+    """A mapping whose values are never None: a dict comprehension, or a module-level table (ALL_CAPS name)."""
+    return isinstance(e, ast.DictComp) or (isinstance(e, ast.Name) and e.id.isupper() and len(e.id) > 2)
+
+
+class _Walrus(ast.NodeTransformer):
+    """``(name := value)`` inside an expression: the binding is recorded (in evaluation order) and the expression
+    continues with the value."""
+
+    def __init__(self, bind):
+        self.bind = bind
+
+    def visit_NamedExpr(self, node):
+        v = self.visit(node.value)
+        return self.bind(node.target.id, v)
+
+
 class _Canon(ast.NodeTransformer):
     """Spelling-level canonical forms used while summarising:
 
@@ -75,7 +92,7 @@ class _Canon(ast.NodeTransformer):
         if isinstance(f, ast.Attribute) and f.attr == "setdefault" and len(node.args) == 2 and isinstance(node.args[1], (ast.Dict, ast.List)) \
                 and not getattr(node.args[1], "keys", None) and not getattr(node.args[1], "elts", None):
             return ast.Subscript(value=f.value, slice=node.args[0], ctx=ast.Load())
-        if isinstance(f, ast.Attribute) and f.attr == "get" and len(node.args) == 1 and isinstance(f.value, ast.DictComp) and not node.keywords:
+        if isinstance(f, ast.Attribute) and f.attr == "get" and len(node.args) == 1 and _is_table(f.value) and not node.keywords:
             return ast.Subscript(value=f.value, slice=node.args[0], ctx=ast.Load())
         return node
 
@@ -83,14 +100,14 @@ class _Canon(ast.NodeTransformer):
         # look at the un-rewritten operand first: ``M.get(k) is None``
         if len(node.ops) == 1 and isinstance(node.ops[0], (ast.Is, ast.IsNot)) and isinstance(node.comparators[0], ast.Constant) and node.comparators[0].value is None \
                 and isinstance(node.left, ast.Call) and isinstance(node.left.func, ast.Attribute) and node.left.func.attr == "get" and len(node.left.args) == 1 \
-                and isinstance(node.left.func.value, ast.DictComp):
+                and _is_table(node.left.func.value):
             m = self.visit(node.left.func.value)
             k = self.visit(node.left.args[0])
             return ast.Compare(left=k, ops=[ast.NotIn() if isinstance(node.ops[0], ast.Is) else ast.In()], comparators=[m])
         self.generic_visit(node)
         # after the rewrite: ``M[k] is None`` with M a dict comprehension
         if len(node.ops) == 1 and isinstance(node.ops[0], (ast.Is, ast.IsNot)) and isinstance(node.comparators[0], ast.Constant) and node.comparators[0].value is None \
-                and isinstance(node.left, ast.Subscript) and isinstance(node.left.value, ast.DictComp):
+                and isinstance(node.left, ast.Subscript) and _is_table(node.left.value):
             return ast.Compare(left=node.left.slice, ops=[ast.NotIn() if isinstance(node.ops[0], ast.Is) else ast.In()], comparators=[node.left.value])
         return node
 
@@ -248,6 +265,12 @@ class Summarizer:
         return T().visit(copy.deepcopy(e))
 
     def _sub(self, e, env, depth):
+        if any(isinstance(n, ast.NamedExpr) for n in ast.walk(e)):
+            def bind(name, value):
+                v = self._sub(value, env, depth)
+                env[name] = v
+                return v
+            e = _Walrus(bind).visit(copy.deepcopy(_strip(e)))
         r = self._inline_calls(subst(e, {k: v for k, v in env.items() if k not in ("__heap__", "__fx__")}), depth)
         r = _Canon().visit(r)
         heap = env.get("__heap__")
@@ -432,6 +455,14 @@ def cval(node, sc):
             return _UNKNOWN
         try:
             return _OPS[type(node.op)](a, b)
+        except Exception:
+            return _UNKNOWN
+    if isinstance(node, ast.Compare) and len(node.ops) > 1 and all(type(o) in _CMP for o in node.ops):
+        vals = [cval(x, sc) for x in [node.left] + list(node.comparators)]
+        if any(v is _UNKNOWN for v in vals):
+            return _UNKNOWN
+        try:
+            return all(_CMP[type(o)](a, b) for o, a, b in zip(node.ops, vals, vals[1:]))
         except Exception:
             return _UNKNOWN
     if isinstance(node, ast.Compare) and len(node.ops) == 1 and type(node.ops[0]) in _CMP:
